@@ -8,7 +8,7 @@ use reval::prelude::*;
 use serde_json::json;
 use std::process::Command;
 
-pub const CONSTRUCTS: [&str; 28] = [
+pub const CONSTRUCTS: [&str; 30] = [
     "unary-chain",
     "not-chain",
     "paren-nest",
@@ -38,6 +38,8 @@ pub const CONSTRUCTS: [&str; 28] = [
     "cast-datetime-long-fraction",
     "long-decimal-literal",
     "long-int-literal",
+    "meta-nested-lists",
+    "meta-nested-maps",
 ];
 
 /// contexts covering every grammar production; `{}` is filled with a deep sub-expression.  These
@@ -107,6 +109,12 @@ pub fn text_for(construct: &str, n: usize) -> String {
         "cast-datetime-long-fraction" => format!("datetime(\"2015-07-30T03:26:13.{}Z\")", "1".repeat(n)),
         "long-decimal-literal" => format!("d{}1.5", "0".repeat(n)),
         "long-int-literal" => format!("i{}1", "0".repeat(n)),
+        // valid rules whose metadata value is nested deep (constant folding of metadata recurses)
+        "meta-nested-lists" => format!("@k: {}i1{};\nx", "[".repeat(n), "]".repeat(n)),
+        "meta-nested-maps" => format!("@k: {}i1{};\nx", "{a: ".repeat(n), "}".repeat(n)),
+        // a flat list of n calls of one cacheable function with n different arguments (whatever
+        // holds the cached results is built up and torn down without recursion)
+        "many-cached-calls" => format!("[{}]", (0..n).map(|i| format!("cached(i{i})")).collect::<Vec<_>>().join(", ")),
         // a flat text whose evaluation moves a value nested n deep from one user function to another
         "deep-fn-value" => format!("audit(load(i{n}))"),
         "deep-fn-result" => format!("load(i{n})"),
@@ -174,6 +182,19 @@ pub fn child(args: &[String]) -> ! {
                     "drop" => {
                         drop(e);
                         std::process::exit(0);
+                    }
+                    "evaluate" if construct == "many-cached-calls" => {
+                        use crate::checks::probe::{probe, Handler};
+                        let h: Handler = std::sync::Arc::new(|_, p| (Ok(p), 0));
+                        let rs = match ruleset().with_rule(Rule::new("r", std::collections::BTreeMap::new(), e)).and_then(|b| b.with_function(probe("cached", true, &h))) {
+                            Ok(b) => b.build(),
+                            Err(_) => std::process::exit(2),
+                        };
+                        // everything is dropped normally here: tearing down the evaluation's state is
+                        // part of the operation
+                        let ok = matches!(crate::engine::exec::block_on(rs.evaluate_value(&facts)), Ok(Ok(o)) if o.len() == 1);
+                        drop(rs);
+                        std::process::exit(if ok { 0 } else { 3 });
                     }
                     "evaluate" if construct.starts_with("deep-fn-") => {
                         // `load` builds its deep result without recursion, `audit` takes its argument
@@ -317,7 +338,7 @@ pub fn run(tier: Tier) -> i32 {
         }
     }
     // deep *values* travelling between user functions during the evaluation of a flat text
-    for c in ["deep-fn-value", "deep-fn-result", "deep-fn-value-in-list"] {
+    for c in ["deep-fn-value", "deep-fn-result", "deep-fn-value-in-list", "many-cached-calls"] {
         for s in stacks {
             cells.push((c, "evaluate", s));
         }
